@@ -106,6 +106,8 @@ struct State {
     frames: Vec<usize>,
     pool_stack: Vec<usize>,
     stats: SchedStats,
+    single_leaf: bool,
+    last_plan: u64,
 }
 
 pub struct SimDriver {
@@ -128,12 +130,13 @@ impl SimDriver {
         let _ = verif_swap_rng_state(rep, rnd);
         workers.push(Worker { pool: usize::MAX, rng: None, busy: true, tasks: 0 });
         let mut pool = Pool { workers: vec![] };
-        for _ in 0..cfg.workers.max(1) {
+        // the global pool always owns 16 virtual workers; `cfg.workers` of them are in use (reconfigurable)
+        for _ in 0..16 {
             pool.workers.push(workers.len());
             workers.push(Worker { pool: 0, rng: Some(new_worker_rng(&mut rng_stream)), busy: false, tasks: 0 });
         }
         let mut stats = SchedStats::default();
-        stats.pools.push(cfg.workers.max(1));
+        stats.pools.push(cfg.workers.clamp(1, 16));
         SimDriver {
             st: RefCell::new(State {
                 cfg,
@@ -145,12 +148,30 @@ impl SimDriver {
                 frames: vec![],
                 pool_stack: vec![],
                 stats,
+                single_leaf: false,
+                last_plan: 0,
             }),
         }
     }
 
     pub fn stats(&self) -> SchedStats {
         self.st.borrow().stats.clone()
+    }
+
+    /// Changes the strategy and the size of the global pool for subsequent fork-joins.
+    pub fn reconfigure(&self, strategy: Strategy, workers: usize) {
+        let mut st = self.st.borrow_mut();
+        st.cfg.strategy = strategy;
+        st.cfg.workers = workers.clamp(1, 16);
+    }
+
+    /// Forces every subsequent fork-join to run as one leaf (the sequential reference), or lifts the override.
+    pub fn force_single_leaf(&self, on: bool) {
+        self.st.borrow_mut().single_leaf = on;
+    }
+
+    pub fn last_plan_hash(&self) -> u64 {
+        self.st.borrow().last_plan
     }
 }
 
@@ -175,9 +196,18 @@ impl State {
         }
     }
 
+    fn threads(&self, pool: usize) -> usize {
+        if pool == 0 {
+            self.cfg.workers.clamp(1, 16)
+        } else {
+            self.pools[pool].workers.len()
+        }
+    }
+
     fn pick_thief(&mut self, pool: usize, not: usize) -> Option<usize> {
+        let threads = self.threads(pool);
         let candidates: Vec<usize> =
-            self.pools[pool].workers.iter().copied().filter(|w| *w != not && !self.workers[*w].busy).collect();
+            self.pools[pool].workers.iter().take(threads).copied().filter(|w| *w != not && !self.workers[*w].busy).collect();
         if candidates.is_empty() {
             None
         } else {
@@ -199,7 +229,7 @@ impl State {
         leaf_gen: &mut dyn FnMut(&mut State, &mut Vec<Step>, usize, usize, usize),
     ) {
         let len = end - start;
-        let threads = self.pools[pool].workers.len();
+        let threads = self.threads(pool);
         let can_split = len / 2 >= 1
             && if migrated {
                 splits = std::cmp::max(threads, splits / 2);
@@ -295,7 +325,8 @@ impl ForkJoinDriver for SimDriver {
             let pool = st.current_pool();
             // a call from outside of any pool is injected into the pool and lands on some worker
             let root = if st.workers[caller].pool == usize::MAX {
-                let ws = &st.pools[pool].workers;
+                let threads0 = st.threads(pool);
+                let ws: Vec<usize> = st.pools[pool].workers.iter().take(threads0).copied().collect();
                 let free: Vec<usize> = ws.iter().copied().filter(|w| !st.workers[*w].busy).collect();
                 if free.is_empty() {
                     ws[0]
@@ -305,11 +336,15 @@ impl ForkJoinDriver for SimDriver {
             } else {
                 caller
             };
-            let threads = st.pools[pool].workers.len();
+            let threads = st.threads(pool);
             let mut steps = Vec::new();
+            if st.single_leaf {
+                steps.push(Step::Leaf { start: 0, end: len, worker: root });
+            }
             let root_busy = st.workers[root].busy;
             st.workers[root].busy = true;
             match product {
+                _ if st.single_leaf => {}
                 Some((a_len, b_len)) if a_len > 0 => {
                     // rayon flat_map: outer tree over `a`; inside one outer leaf every outer item drives
                     // its own inner bridge (fresh splitter), results reduced left to right.
@@ -319,7 +354,7 @@ impl ForkJoinDriver for SimDriver {
                             let mut shift = |_: &mut State, out: &mut Vec<Step>, s2: usize, e2: usize, w2: usize| {
                                 out.push(Step::Leaf { start: base + s2, end: base + e2, worker: w2 });
                             };
-                            let threads = st.pools[pool].workers.len();
+                            let threads = st.threads(pool);
                             st.build(out, pool, 0, b_len, threads, w, false, &mut shift);
                             if n > 0 {
                                 out.push(Step::Reduce { worker: w, swapped: false });
@@ -336,6 +371,7 @@ impl ForkJoinDriver for SimDriver {
             }
             // statistics + event log
             let h = hash_steps(&steps);
+            st.last_plan = h;
             let leaves: Vec<(usize, usize)> = steps
                 .iter()
                 .filter_map(|s| if let Step::Leaf { start, worker, .. } = s { Some((*start, *worker)) } else { None })
